@@ -1192,11 +1192,41 @@ def _prf(kind, args, seed):
     return rnd.uniform(0.3, 1.7)
 
 
-def evalf(e, env=None, seed=0):
+def evalnum(e):
+    """Numeric value of a CLOSED normal form (constants, pi, elementary functions, selections on decidable comparisons).
+    Raises AlgError if the form has a free symbol or an uninterpreted function: it is an evaluation, not a witness."""
+    return evalf(e, None, 0, strict=True)
+
+
+def evalf(e, env=None, seed=0, strict=False):
     """Evaluate a normal form at a pseudo-random real point (witness for non-identities).
     env maps Atom -> float for free atoms; missing atoms get values derived from (seed, atom id)."""
     env = {} if env is None else env
     memo = {}
+
+    def gval(g):
+        """truth value of a structural guard tuple ('G', kind, ...) under exact evaluation"""
+        if isinstance(g, bool):
+            return g
+        if not (isinstance(g, tuple) and g and g[0] == "G"):
+            raise AlgError("guard that cannot be evaluated")
+        kind = g[1]
+        if kind == "cmp":
+            op, x, y = g[2], g[3], g[4]
+            if op == "between":
+                lo, hi = y
+                return val(lo) < val(x) < val(hi)
+            xv, yv = val(x), val(y)
+            return {"Lt": xv < yv, "LtE": xv <= yv, "Gt": xv > yv, "GtE": xv >= yv, "Eq": xv == yv, "NotEq": xv != yv}[op]
+        if kind == "not":
+            return not gval(g[2])
+        if kind == "and":
+            return all(gval(x) for x in g[2:])
+        if kind == "or":
+            return any(gval(x) for x in g[2:])
+        if kind == "const":
+            return bool(g[2])
+        raise AlgError(f"guard kind {kind} cannot be evaluated")
 
     def val_atom(a):
         v = memo.get(a)
@@ -1212,6 +1242,8 @@ def evalf(e, env=None, seed=0):
                 v = math.e
             elif k == "psym" and a.args[0] == "pi":
                 v = math.pi
+            elif k in ("sym", "psym") and strict:
+                raise AlgError(f"free symbol {a.args[0]} in a form that was expected to be closed")
             elif k in ("sym", "psym"):
                 rnd = random.Random(hash((seed, a.id)))
                 v = rnd.uniform(0.3, 1.7)
@@ -1247,6 +1279,24 @@ def evalf(e, env=None, seed=0):
             elif k in ("fn:max", "fn:min") and isinstance(a.args[0], tuple):
                 vs = [val(x) for x in a.args[0]]
                 v = (max if k == "fn:max" else min)(vs)
+            elif strict and k == "fn:arcsin":
+                x = val(a.args[0])
+                v = math.asin(x) if -1 <= x <= 1 else float("nan")
+            elif strict and k == "fn:arctan":
+                v = math.atan(val(a.args[0]))
+            elif strict and k == "fn:log":
+                x = val(a.args[0])
+                v = math.log(x) if x > 0 else float("nan")
+            elif strict and k == "fn:select":
+                v = val(a.args[1]) if gval(a.args[0]) else val(a.args[2])
+            elif strict and k == "fn:clip":
+                x = val(a.args[0])
+                lo = None if a.args[1] == "none" else val(a.args[1])
+                hi = None if a.args[2] == "none" else val(a.args[2])
+                v = x if lo is None or x >= lo else lo
+                v = v if hi is None or v <= hi else hi
+            elif strict:
+                raise AlgError(f"uninterpreted function {k} in a form that was expected to be closed")
             else:
                 # uninterpreted function: a pseudo-random but *functional* value of the evaluated arguments,
                 # so that semantically equal arguments (e.g. a let atom and its definition) agree
